@@ -25,6 +25,12 @@ enum TOp {
     Put(u64, usize),
     Del(u64),
     Retain(u64),
+    /// overwrite the value of an existing key in place through get_mut (same length)
+    Touch(u64),
+    /// insert through insert_reserve
+    Reserve(u64, usize),
+    /// drop the table handle and open the table again
+    Reopen,
 }
 
 fn val(len: usize, k: u64, t: usize) -> Vec<u8> {
@@ -33,10 +39,13 @@ fn val(len: usize, k: u64, t: usize) -> Vec<u8> {
 
 fn gen_stream(rng: &mut Rng, page: usize) -> Vec<TOp> {
     (0..rng.range(5, 60))
-        .map(|_| match rng.below(10) {
+        .map(|_| match rng.below(16) {
             0..=6 => TOp::Put(rng.below(80), *rng.pick(&[0usize, 20, 100, page / 2, page + 30])),
             7 | 8 => TOp::Del(rng.below(80)),
-            _ => TOp::Retain(rng.range(2, 4)),
+            9 => TOp::Retain(rng.range(2, 4)),
+            10..=12 => TOp::Touch(rng.below(80)),
+            13 => TOp::Reserve(rng.below(80), *rng.pick(&[1usize, 50, page / 2])),
+            _ => TOp::Reopen,
         })
         .collect()
 }
@@ -51,6 +60,17 @@ fn apply_spec(m: &mut BTreeMap<u64, Vec<u8>>, ops: &[TOp], t: usize) {
                 m.remove(k);
             }
             TOp::Retain(md) => m.retain(|k, _| k % md != 0),
+            TOp::Touch(k) => {
+                if let Some(v) = m.get_mut(k) {
+                    for b in v.iter_mut() {
+                        *b ^= 0x5a;
+                    }
+                }
+            }
+            TOp::Reserve(k, len) => {
+                m.insert(*k, val(*len, *k + 1, t));
+            }
+            TOp::Reopen => {}
         }
     }
 }
@@ -115,6 +135,21 @@ fn random_run(w: &mut World, specs: &mut Vec<BTreeMap<u64, Vec<u8>>>, rng: &mut 
                                 tb.remove(*k).map_err(|e| format!("{e:?}"))?;
                             }
                             TOp::Retain(md) => tb.retain(|k, _| k % md != 0).map_err(|e| format!("{e:?}"))?,
+                            TOp::Touch(k) => {
+                                if let Some(mut g) = tb.get_mut(*k).map_err(|e| format!("{e:?}"))? {
+                                    let new: Vec<u8> = g.value().iter().map(|b| b ^ 0x5a).collect();
+                                    g.insert(new.as_slice()).map_err(|e| format!("{e:?}"))?;
+                                }
+                            }
+                            TOp::Reserve(k, len) => {
+                                let v = val(*len, *k + 1, t);
+                                let mut g = tb.insert_reserve(*k, v.len()).map_err(|e| format!("{e:?}"))?;
+                                g.as_mut().copy_from_slice(&v);
+                            }
+                            TOp::Reopen => {
+                                drop(tb);
+                                tb = txn.open_table(tdef(t)).map_err(|e| format!("reopen: {e:?}"))?;
+                            }
                         }
                     }
                     Ok(())
@@ -182,6 +217,107 @@ fn random_run(w: &mut World, specs: &mut Vec<BTreeMap<u64, Vec<u8>>>, rng: &mut 
     drop(sps);
     w.check_state(out, "restore after multi-threaded transaction");
     out.count("mt_transactions");
+    out.count("evaluations");
+}
+
+/// One thread sweeps a large table with get_mut (which holds the transaction's shared
+/// freed-pages list across page allocation and reads) while another opens, modifies and closes
+/// small tables over and over: whatever the interleaving, the committed tables and the page
+/// accounting are those of a serial run.
+fn churn_run(w: &mut World, specs: &mut Vec<BTreeMap<u64, Vec<u8>>>, rng: &mut Rng, out: &mut Out, rounds: usize) {
+    let page = w.cfg.page;
+    // a committed base: table 0 large, tables 1..3 small
+    {
+        let db = w.db.as_ref().unwrap();
+        let txn = db.begin_write().expect("begin_write");
+        {
+            let mut t0 = txn.open_table(tdef(0)).unwrap();
+            for k in 0..600u64 {
+                let v = val(40 + (k as usize % 3) * 30, k, 0);
+                t0.insert(1000 + k, v.as_slice()).unwrap();
+                specs[0].insert(1000 + k, v);
+            }
+            for t in 1..4 {
+                let mut tb = txn.open_table(tdef(t)).unwrap();
+                for k in 0..4u64 {
+                    let v = val(page / 3, k, t);
+                    tb.insert(k, v.as_slice()).unwrap();
+                    specs[t].insert(k, v);
+                }
+            }
+        }
+        txn.commit().expect("commit base");
+    }
+    w.check_state(out, "churn base");
+    let db = w.db.as_ref().unwrap();
+    let txn = db.begin_write().expect("begin_write");
+    let errors: Mutex<Vec<String>> = Mutex::new(vec![]);
+    let seedv = rng.below(1 << 30);
+    std::thread::scope(|s| {
+        let txn = &txn;
+        let errors = &errors;
+        s.spawn(move || {
+            let r = (|| -> Result<(), String> {
+                let mut t0 = txn.open_table(tdef(0)).map_err(|e| format!("{e:?}"))?;
+                for k in 0..600u64 {
+                    if let Some(mut g) = t0.get_mut(1000 + k).map_err(|e| format!("{e:?}"))? {
+                        let new: Vec<u8> = g.value().iter().map(|b| b ^ 0x33).collect();
+                        g.insert(new.as_slice()).map_err(|e| format!("{e:?}"))?;
+                    }
+                }
+                Ok(())
+            })();
+            if let Err(e) = r {
+                errors.lock().unwrap().push(format!("sweep: {e}"));
+            }
+        });
+        s.spawn(move || {
+            let r = (|| -> Result<(), String> {
+                for i in 0..rounds as u64 {
+                    let t = 1 + (i % 3) as usize;
+                    let mut tb = txn.open_table(tdef(t)).map_err(|e| format!("{e:?}"))?;
+                    let k = (i + seedv) % 4;
+                    tb.insert(k, val(page / 3, k + i, t).as_slice()).map_err(|e| format!("{e:?}"))?;
+                    drop(tb);
+                }
+                Ok(())
+            })();
+            if let Err(e) = r {
+                errors.lock().unwrap().push(format!("churn: {e}"));
+            }
+        });
+    });
+    for e in errors.lock().unwrap().iter() {
+        out.oracle_fail(format!("mt-op|{e}"));
+    }
+    for (_, v) in specs[0].range_mut(1000..1600) {
+        for b in v.iter_mut() {
+            *b ^= 0x33;
+        }
+    }
+    for i in 0..rounds as u64 {
+        let t = 1 + (i % 3) as usize;
+        let k = (i + seedv) % 4;
+        specs[t].insert(k, val(page / 3, k + i, t));
+    }
+    if let Err(e) = txn.commit() {
+        out.oracle_fail(format!("mt-commit|{e:?}"));
+    }
+    for t in 0..4 {
+        match read_table(w.db.as_ref().unwrap(), t) {
+            Ok(m) if m == specs[t] => {}
+            Ok(m) => out.oracle_fail(format!("mt-contents|churn: table {t} holds {} entries, its own stream gives {}", m.len(), specs[t].len())),
+            Err(e) => out.oracle_fail(format!("mt-read|table {t}: {e}")),
+        }
+    }
+    w.check_state(out, "churn transaction");
+    // what the transaction made unreachable must come back: two empty commits later nothing is pending
+    for _ in 0..3 {
+        let txn = w.db.as_ref().unwrap().begin_write().expect("begin_write");
+        txn.commit().expect("commit");
+    }
+    w.check_state(out, "churn drained");
+    out.count("churn_transactions");
     out.count("evaluations");
 }
 
@@ -303,7 +439,7 @@ pub fn run(args: &Args) {
     let mut out = Out::new(&args.out);
     let mut rng = Rng::new(args.seed ^ 0xC16);
     out.comment(&format!("C16 mt seed={} thorough={}", args.seed, args.thorough));
-    let worlds = if args.thorough { 40 } else { 6 };
+    let worlds = if args.thorough { 40 } else { 8 };
     for _ in 0..worlds {
         let mut r = rng.fork();
         let page = *r.pick(&[512usize, 1024]);
@@ -320,6 +456,7 @@ pub fn run(args: &Args) {
             for _ in 0..(if args.thorough { 40 } else { 12 }) {
                 random_run(&mut w, &mut specs, &mut r, &mut out);
             }
+            churn_run(&mut w, &mut specs, &mut r, &mut out, if args.thorough { 900 } else { 300 });
             w.readers.clear();
             w.sps.clear();
         }));
